@@ -4,6 +4,7 @@ CONSTANTS
     NH = 3
     MaxR = 4
     MaxFault = 2
+    MaxBreak = 1
     TrackFiles = FALSE
     Extras = TRUE
     SymBreak = FALSE
